@@ -929,7 +929,9 @@ func ensurePathExists(pd *container, path string, options *ApplyOptions) error {
 				doc, err = target.intoDoc(options)
 
 				if err != nil {
-					return err
+					// Not a container: nothing can be created below it. Let the
+					// add itself report the unreachable path (ErrMissing).
+					return nil
 				}
 			}
 		}
